@@ -290,7 +290,27 @@ func rewriteClass(evs []vsched.Event, evictIdx int, val int64) string {
 
 func c14DFSOracle(x *Exec, res *vsched.Result, job *Job) []Viol {
 	// in these scenarios capacity is ample and nobody calls Clear: every OnEvict comes from expiry processing
-	return sweepSafety(res.Events, func(int) bool { return true }, "C14")
+	out := sweepSafety(res.Events, func(int) bool { return true }, "C14")
+	// bounded liveness at the end of the epilogue: count the ticks fired at least two bucket
+	// lengths (1 s each) after an entry's expiry; with two or more, the entry must be gone
+	if d := x.AfterEpi; d != nil {
+		for _, e := range d.Store {
+			if e.Expiration.IsZero() {
+				continue
+			}
+			exp := e.Expiration.Sub(vtimeBase()).Nanoseconds()
+			ticks := 0
+			for _, ev := range res.Events {
+				if ev.Kind == evTick && ev.T >= exp+2e9 {
+					ticks++
+				}
+			}
+			if ticks >= 2 {
+				out = append(out, Viol{Key: "C14/expired-entry-never-swept", What: fmt.Sprintf("value %d of key %d expired at t=%dms; %d sweeps were triggered at least two bucket lengths later and the applier went idle after each, yet the entry is still stored", e.Value, e.Key, exp/1e6, ticks)})
+			}
+		}
+	}
+	return out
 }
 
 func c14Jobs(tier string) []Job {
@@ -312,6 +332,13 @@ func c14Jobs(tier string) []Job {
 		"del-reinsert":        {{K: "del", Key: 1}, sttl(1, 10000)},
 		"get":                 {{K: "get", Key: 1}, {K: "get", Key: 257}},
 		"overwrite-twice":     {set(1), sttl(1, 10000)},
+	}
+	// two clients re-writing the same key concurrently (TTL dropped | TTL set again), then the
+	// clock moves on and two sweeps run: whatever expiration the entry ends up with must be honoured
+	live := []Op{{K: "wait"}, {K: "advance", N: 3000}, {K: "tick"}, {K: "wait"}, {K: "advance", N: 3000}, {K: "tick"}, {K: "wait"}, {K: "tick"}, {K: "wait"}, {K: "get", Key: 1}}
+	for i, pair := range [][2][]Op{{{set(1)}, {sttl(1, 1000)}}, {{sttl(1, 1500)}, {sttl(1, 1000)}}, {{set(1), sttl(1, 1200)}, {sttl(1, 1000)}}} {
+		sc := &Scenario{Name: fmt.Sprintf("dfs/two-rewriters/%d", i), Cfg: cfg, Setup: []Op{sttl(1, 1000), {K: "wait"}}, Threads: [][]Op{cp(pair[0]), cp(pair[1])}, Epilogue: cp(live)}
+		jobs = append(jobs, Job{Scenario: sc, Bound: bound})
 	}
 	for name, cl := range clients {
 		sc := &Scenario{Name: "dfs/sweep|" + name, Cfg: cfg, Setup: cp(setup), Threads: [][]Op{{{K: "tick"}, {K: "get", Key: 2}}, cp(cl)},
